@@ -182,7 +182,7 @@ def stored_value(spec: Spec, i: int, context: Optional[dict] = None, epoch: int 
 
 def reference(spec: Spec, requested: Sequence[int], *, precached: Iterable[int] = (), faults: Iterable[int] = (),
               died: Iterable[int] = (), bust_cache: bool = False, context: Optional[dict] = None,
-              pre_context: Optional[dict] = None, epoch: int = 1) -> Ref:
+              pre_context: Optional[dict] = None, epoch: int = 1, corrupt: Iterable[int] = ()) -> Ref:
     precached = {i for i in precached if U.CACHEABLE[spec.types[i]]}
     faults = set(faults)
     died = set(died)
@@ -208,6 +208,12 @@ def reference(spec: Spec, requested: Sequence[int], *, precached: Iterable[int] 
     unaffected: set = set()
     for i in sorted(needed):      # indices are a topological order
         if i in loads:
+            if i in corrupt:
+                # the entry looks cached but cannot be loaded: the task fails (it is neither re-run
+                # behind the caller's back nor are its dependencies touched)
+                fails.add(i)
+                own.add(i)
+                continue
             value[i] = stored_value(spec, i, pre_context, 0)
             continue
         failed_dep = any(j in fails for j in spec.deps[i])
@@ -232,10 +238,16 @@ def reference(spec: Spec, requested: Sequence[int], *, precached: Iterable[int] 
                value=value, unaffected=unaffected)
 
 
-def precache(storage, spec: Spec, built: Built, nodes: Iterable[int], context: Optional[dict] = None):
-    """Put entries for `nodes` into `storage` through the cache's own save()."""
+def precache(storage, spec: Spec, built: Built, nodes: Iterable[int], context: Optional[dict] = None, corrupt: Iterable[int] = ()):
+    """Put entries for `nodes` into `storage` through the cache's own save(); the stored result
+    file of the nodes in `corrupt` is then cut in half (metadata left intact)."""
     for i in nodes:
         t = built.canon[i]
         if not U.CACHEABLE[spec.types[i]]:
             continue
         t._lt.cache.save(storage, t, TaskResult(value=stored_value(spec, i, context, 0), meta=FIXED_META))
+        if i in corrupt:
+            files = storage.d.get(t.cache_key, {})
+            for fn in list(files):
+                if fn != 'metadata.json':
+                    files[fn] = files[fn][: len(files[fn]) // 2]
